@@ -28,3 +28,63 @@ theorem matchesChars_iff (r : RE) (s : List Char) : r.matchesChars s = true ↔ 
   unfold RE.matchesChars Matches; exact RE.accepts_iff r _
 
 end AthlibVerif
+
+namespace AthlibVerif
+
+/-- the intervals of a table follow one another without gaps from `a` to `b` -/
+def coversFrom : List (Nat × Nat × Nat) → Nat → Nat → Bool
+  | [], _, _ => false
+  | [e], a, b => e.1 == a && e.2.1 == b && decide (a ≤ b)
+  | e :: e' :: rest, a, b => e.1 == a && decide (a ≤ e.2.1) && coversFrom (e' :: rest) (e.2.1 + 1) b
+
+theorem coversFrom_mem : ∀ (l : List (Nat × Nat × Nat)) (a b n : Nat), coversFrom l a b = true → a ≤ n → n ≤ b →
+    ∃ e ∈ l, e.1 ≤ n ∧ n ≤ e.2.1 := by
+  intro l
+  induction l with
+  | nil => intro a b n h; simp [coversFrom] at h
+  | cons e rest ih =>
+    intro a b n h ha hb
+    cases rest with
+    | nil =>
+      simp only [coversFrom, Bool.and_eq_true, beq_iff_eq, decide_eq_true_eq] at h
+      exact ⟨e, List.mem_cons_self, by omega, by omega⟩
+    | cons e' rest' =>
+      simp only [coversFrom, Bool.and_eq_true, beq_iff_eq, decide_eq_true_eq] at h
+      by_cases hn : n ≤ e.2.1
+      · exact ⟨e, List.mem_cons_self, by omega, hn⟩
+      · obtain ⟨x, hx, h1, h2⟩ := ih (e.2.1 + 1) b n h.2 (by omega) hb
+        exact ⟨x, List.mem_cons_of_mem _ hx, h1, h2⟩
+
+/-- the regenerated alphabet table is a partition of all code points 0 .. 0x10FFFF into consecutive intervals -/
+theorem symTable_covers : coversFrom Gen.symTable 0 1114111 = true := by decide +kernel
+
+/-- **every code point lies in an interval of the table, and `symOfNat` is the symbol of the first such interval**
+    (the fall-back value of `symOfNat` is never used for a character) -/
+theorem symOfNat_spec (n : Nat) (h : n ≤ 1114111) :
+    ∃ e ∈ Gen.symTable, e.1 ≤ n ∧ n ≤ e.2.1 ∧ symOfNat n = e.2.2 := by
+  obtain ⟨x, hx, h1, h2⟩ := coversFrom_mem Gen.symTable 0 1114111 n symTable_covers (Nat.zero_le _) h
+  unfold symOfNat
+  cases hf : Gen.symTable.find? (fun e => e.1 ≤ n && n ≤ e.2.1) with
+  | none =>
+    have := List.find?_eq_none.1 hf x hx
+    simp only [Bool.and_eq_true, decide_eq_true_eq, not_and] at this
+    exact (this h1 h2).elim
+  | some e =>
+    have hm := List.mem_of_find?_eq_some hf
+    have hp := List.find?_some hf
+    simp only [Bool.and_eq_true, decide_eq_true_eq] at hp
+    exact ⟨e, hm, hp.1, hp.2, rfl⟩
+
+theorem char_le_max (c : Char) : c.toNat ≤ 1114111 := by
+  have := c.valid
+  rcases this with h | h
+  · have : c.val.toNat < 55296 := h
+    unfold Char.toNat; omega
+  · have : c.val.toNat < 1114112 := h.2
+    unfold Char.toNat; omega
+
+/-- for characters -/
+theorem symOf_spec (c : Char) : ∃ e ∈ Gen.symTable, e.1 ≤ c.toNat ∧ c.toNat ≤ e.2.1 ∧ symOf c = e.2.2 :=
+  symOfNat_spec c.toNat (char_le_max c)
+
+end AthlibVerif
